@@ -252,6 +252,8 @@ pub enum KeyStyle {
     Distinct,
     /// one consistent key for all attributes: `$.k()` / `dxrt::kby_*`
     Consistent,
+    /// one consistent NaN-like partial key: `$.kp()` / `dxrt::pby_*` (no total `by`)
+    ConsistentPartial,
 }
 
 /// Syntactic form of the key expression (exercises `$` substitution)
@@ -268,6 +270,7 @@ pub fn key_expr(attr: Tr, style: KeyStyle, form: KeyForm) -> String {
     let m = match style {
         KeyStyle::Distinct => format!("k_{}", attr.attr()),
         KeyStyle::Consistent => "k".to_string(),
+        KeyStyle::ConsistentPartial => "kp".to_string(),
     };
     match form {
         KeyForm::Method => format!("$.{m}()"),
@@ -283,6 +286,11 @@ pub fn by_expr(attr: Tr, style: KeyStyle) -> String {
             Tr::PartialOrd => "dxrt::kby_partial_ord".into(),
             Tr::Eq | Tr::PartialEq => "dxrt::kby_eq".into(),
             Tr::Hash => "dxrt::kby_hash".into(),
+        },
+        KeyStyle::ConsistentPartial => match attr {
+            Tr::PartialOrd => "dxrt::pby_partial_ord".into(),
+            Tr::Eq | Tr::PartialEq => "dxrt::pby_eq".into(),
+            Tr::Ord | Tr::Hash => panic!("no total by-function in the partial style"),
         },
     }
 }
